@@ -150,6 +150,7 @@ func c14Setup() {
 			"file:h1": []byte(b.String()), "file:h2": []byte(c14Record("HOST2", "ggggccccaaaatttt", false, 0).String()),
 			"file:q1": []byte(">q\nacg\n"), "file:q2": []byte(">q\ncat\n"),
 			// secondary inputs whose size is an exact multiple of 4096 bytes and that differ only in their last bytes
+			"SB1": c14BlockFasta(8192, "acgt"), "SB2": c14BlockFasta(8192, "ttga"), "SC1": c14BlockFasta(32768, "acgt"), "SC2": c14BlockFasta(32768, "ttga"),
 			"file:gB1": c14BlockFasta(8192, "acgt"), "file:gB2": c14BlockFasta(8192, "ttga"),
 			"file:gC1": c14BlockFasta(4096, "acgt"), "file:gC2": c14BlockFasta(4096, "ttga"),
 			"file:t1": []byte("     gene            5..9\n                     /gene=\"added1\"\n"),
@@ -312,6 +313,8 @@ func c14Alphabet(thorough bool) []c14Inv {
 			c14Inv{Args: []string{"search", "query.fa"}, Stdin: "A", Files: map[string]string{"query.fa": "q" + v}},
 			c14Inv{Args: []string{"annotate", "table.txt"}, Stdin: "A", Files: map[string]string{"table.txt": "t" + v}})
 	}
+	add([]string{"SB1", "SB2", "SC1", "SC2"}, "reverse")
+	add([]string{"SB1", "SB2"}, "extract", "8000..8050")
 	for _, v := range []string{"B1", "B2", "C1", "C2"} {
 		out = append(out,
 			c14Inv{Args: []string{"insert", "3", "guest.fa"}, Stdin: "A", Files: map[string]string{"guest.fa": "g" + v}},
